@@ -809,6 +809,15 @@ public:
                 } else if (k == QLatin1String("pump")) {
                     pumpAll();
                 } else if (k == QLatin1String("lose")) {
+                    if (!up && op.arg(0) == 3 && clientAlive && w.client->state() == QXmppClient::DisconnectedState && !w.connectPending) {
+                        // the application logs out while the client is disconnected (after a loss that left the session
+                        // resumable): it gives the session up, nothing can be resumed any more
+                        w.fault("application_logs_out_while_disconnected");
+                        w.client->disconnectFromServer();
+                        pumpAll();
+                        settle();
+                        obligeAllOutstanding(QStringLiteral("application_logged_out_while_disconnected"));
+                    }
                     if (up) {
                         if (outstandingCount() > 0) {
                             adversarialBetween = true;
